@@ -250,14 +250,21 @@ impl Port for U3VInterfaceModule {
         self.assert_open()?;
         let address = address as usize;
         let len = buf.len();
-        let data = self.vm.read_raw(address..address + len)?;
+        let end = address
+            .checked_add(len)
+            .ok_or(GenTlError::InvalidAddress)?;
+        let data = self.vm.read_raw(address..end)?;
         buf.copy_from_slice(data);
         Ok(len)
     }
 
     fn write(&mut self, address: u64, data: &[u8]) -> GenTlResult<usize> {
         self.assert_open()?;
-        self.vm.write_raw(address as usize, data)?;
+        let address = address as usize;
+        if address.checked_add(data.len()).is_none() {
+            return Err(GenTlError::InvalidAddress);
+        }
+        self.vm.write_raw(address, data)?;
 
         self.handle_events()?;
 
